@@ -239,6 +239,17 @@ def xray_energy(wavelength):
     """
     return plancks_constant*speed_of_light/numpy.asarray(wavelength)*1e7
 
+def _base_symbol(atom):
+    """
+    Symbol of the chemical element underlying an element, isotope or ion.
+
+    X-ray data is keyed by element symbol, but the hydrogen isotopes D and T
+    carry their own symbols, as do their ions.
+    """
+    while hasattr(atom, 'element'):
+        atom = atom.element
+    return atom.symbol
+
 class Xray(object):
     """
     X-ray scattering properties for the elements. Refer help(periodictable.xsf)
@@ -257,9 +268,9 @@ class Xray(object):
             # Load table when necessary; note there is no table for
             # neutrons (n), and lowercase nitrogen=> n.nff, so it must
             # be checked for explicitly.
-            filename = os.path.join(self._nff_path,
-                                    self.element.symbol.lower()+".nff")
-            if self.element.symbol != 'n' and os.path.exists(filename):
+            symbol = _base_symbol(self.element)
+            filename = os.path.join(self._nff_path, symbol.lower()+".nff")
+            if symbol != 'n' and os.path.exists(filename):
                 xsf = numpy.loadtxt(filename, skiprows=1).T
                 xsf[1, xsf[1] == -9999.] = numpy.nan
                 xsf[0] *= 0.001  # Use keV in table rather than eV
@@ -327,7 +338,7 @@ class Xray(object):
         """
         from . import cromermann
         f = cromermann.fxrayatq(Q=Q,
-                                symbol=self.element.symbol,
+                                symbol=_base_symbol(self.element),
                                 charge=self.element.charge)
         return f
 
